@@ -20,6 +20,10 @@
     trace chunk <init> <size> <start> <stop> <cd> <script>
     shape <size> <len0> <n> eff*           -> true|false   (`noEarlyFull` evaluated on a REAL syscall trace)
     sha <hex>                              -> <hex digest>
+    histl <Link variant> <strict 0|1> <refuse 0|1> <lim> <nops> op*   -> like hist, with Resolve's read limit `lim`
+        (strict = C08-F28.patch) and negative-size Puts (refuse = C08-F29.patch); further ops:
+        putneg <d> <script> | edit <name> <hex>
+    readsum <strict> <lim> <hex>           -> <data read> <digest> | err:toolarge      (readAndSum on a file holding <hex>)
 -/
 import OllamaVerif.Model.BlobCache
 import OllamaVerif.Model.Sha256
@@ -50,6 +54,8 @@ def pOp : TP Op := do
   | "chunk" => do
     let d ← hex; let size ← nat; let a ← nat; let b ← nat; let cd ← hex; let s ← pScript
     pure (.chunk d size a b cd s)
+  | "putneg" => do let d ← hex; let s ← pScript; pure (.putNeg d s)
+  | "edit" => do let n ← hex; let b ← hex; pure (.edit n b)
   | _ => failure
 
 def showRes : Res → String
@@ -62,6 +68,8 @@ def showRes : Res → String
   | .invalidName => "err:invalidname"
   | .invalidDigest => "err:invaliddigest"
   | .sizeMismatch => "err:sizemismatch"
+  | .tooLarge => "err:toolarge"
+  | .negSize => "err:negsize"
 
 def showOut : Out → String
   | .res r => showRes r
@@ -89,6 +97,7 @@ def opDigests : Op → List Digest
   | .link _ d => [d]
   | .linkR _ d => [d]
   | .chunk d _ _ _ _ _ => [d]
+  | .putNeg d _ => [d]
   | _ => []
 
 def outDigests : Out → List Digest
@@ -98,8 +107,7 @@ def outDigests : Out → List Digest
 
 def showPath (p : MPath) : String := joinWith "/" (p.map hexOrDash)
 
-def histCmd (fixed zc : Bool) (ops : List Op) : String :=
-  let r := runOps H fixed zc ops Disk.empty
+def histOut (ops : List Op) (r : Disk × List Out) : String :=
   let keys := (ops.flatMap opDigests ++ r.2.flatMap outDigests).map hexOf
   let keys := (keys.toArray.qsort (· < ·)).toList.eraseDups
   let blobs := keys.filterMap fun kx =>
@@ -110,6 +118,13 @@ def histCmd (fixed zc : Bool) (ops : List Op) : String :=
     | none => none
   let mans := r.1.mans.map fun e => s!"{showPath e.1}={hexOrDash e.2}"
   s!"{joinWith ";" (r.2.map showOut)} | {joinWith "," blobs} | {joinWith "," mans}"
+
+def histCmd (fixed zc : Bool) (ops : List Op) : String :=
+  histOut ops (runOps H fixed zc ops Disk.empty)
+
+/-- the same with `Resolve`'s read limit and the negative-size `Put` at the variants found in the tree -/
+def histLCmd (fixed zc strict refuse : Bool) (lim : Nat) (ops : List Op) : String :=
+  histOut ops (runOpsL H fixed zc strict refuse lim ops Disk.empty)
 
 def pKind : TP EffKind := do
   let t ← tok
@@ -221,6 +236,17 @@ def handle (toks : List String) : Option String :=
       let fixed ← nat
       let ops ← listOf pOp
       pure (histCmd (fixed != 0) (fixed == 2) ops)) rest
+  | "histl" :: rest =>
+    runTP (do
+      let fixed ← nat; let strict ← nat; let refuse ← nat; let lim ← nat
+      let ops ← listOf pOp
+      pure (histLCmd (fixed != 0) (fixed == 2) (strict != 0) (refuse != 0) lim ops)) rest
+  | "readsum" :: rest =>
+    runTP (do
+      let strict ← nat; let lim ← nat; let f ← hex
+      pure (match readAndSum H (strict != 0) lim f with
+        | none => "err:toolarge"
+        | some (data, dg) => s!"{hexOrDash data} {hexOf dg}")) rest
   | "crash" :: "put" :: rest =>
     runTP (do
       let init ← pSt; let d ← hex; let size ← nat; let s ← pScript; let kd ← pKind; let n ← nat
